@@ -41,7 +41,9 @@ ASSUMPTIONS = [
 WORDS = ['apple', 'Bob', 'cat', 'Dog', 'egg', 'fig', 'Goat', 'hat', 'ink', 'Jam']
 NUMS = [-7.5, -2.0, 0.0, 1.0, 2.5, 3.0, 4.0, 10.0, 12.5, 100.0, 1000.0]
 MIXED = [1.0, 2.0, 2.0, 3.5, -1.0, 0.0, 'a', 'A', 'b', 'ab', 'Ab', 'abc', 'k', 'K',
-         'x y', '10', '3.5', True, False, 'TRUE', 7.0]
+         'x y', '10', '3.5', True, False, 'TRUE', 7.0,
+         # texts holding the wildcard characters themselves
+         'a*c', 'what', 'a?c', '*', 'axc']
 
 
 def rng_arg(rows):
@@ -146,7 +148,9 @@ def run_match(rng, ctx, n_cases):
         vec = [rng.choice(MIXED) for _ in range(n)]
         varg = _vec_arg(rng, _shape(vec, rng.random() < 0.5))
         keys = list(vec) + [v.swapcase() for v in vec if isinstance(v, str)]
-        keys += [99.0, 'zz', 'a*', '?b', '*', 'A?', '*b*', 'k', 2.0, False, '1*']
+        keys += [99.0, 'zz', 'a*', '?b', '*', 'A?', '*b*', 'k', 2.0, False, '1*',
+                 # ~ makes the next wildcard character literal
+                 'a~*c', 'a~?c', '~*', '~**', 'a*c', 'a?c', 'wh~?t']
         for key in keys:
             fam = 'exact:' + ('wildcard' if isinstance(key, str) and rl.wildcard(key)
                               else rl.tid(key))
